@@ -149,7 +149,14 @@ func (w *world) monitor(rep *emit.Report, prop string, hid int, n *node) {
 				m := st.ev.descr[i+len("mutated:"):]
 				switch m {
 				case "t-leader-key", "t-joiner-key", "t-remainer-key", "t-seed":
-					rep.Fail("C09-unsigned-field-altered-packet-accepted",
+					// keys and the genesis seed are not covered by the signature: a node WITH a group must
+					// refuse such packets by comparing with its group (fixed, F7); a node without any
+					// group has nothing to compare with (C09_fresh_caveat)
+					cl := "C09-unsigned-field-altered-packet-accepted"
+					if b.raw.fin == nil {
+						cl = "C09-fresh-node-unsigned-field-altered-packet-accepted"
+					}
+					rep.Fail(cl,
 						"a captured, genuinely signed packet was accepted after altering a field the signature does not cover ("+m+")", in())
 				default:
 					rep.Fail("C09-altered-packet-accepted",
